@@ -2,6 +2,9 @@
 """Writes MANIFEST.json. The list DONE names the properties whose checks exist."""
 import json, subprocess
 DONE = {
+ "C13": ("exploration", "parse/print/parse/print fixed-point monitor over accepted texts with the mirror printer options",
+         "Arbitrary generated text (token soup, lenient symbol constituents, alternative spellings, mutated printer output) is offered to the parser under option sets drawn from all 1536; every accepted text is printed with the corresponding printer options, re-read with the same parser (must equal the folded value, floats by the C05 rule) and, when all floats are in the reader's exact domain, printed again (must be the same text). A lenient-token corpus is additionally crossed with all 1536 option sets. Both feature builds; at least 10% of inputs must be accepted.",
+         "trusted: mirror(Q) as the meaning of 'corresponding printer options'", "4/C13"),
  "C08": ("exploration", "declarative token-classifier monitor + metamorphic option non-interference grouping over all 1536 parser option sets",
          "A corpus of ~190 tokens (every class and its near misses) is placed in 12 syntactic contexts and read under every one of the 1536 option sets. (a) A classifier written from the option documentation says what each reading must be (or that it must be an error / must not be a number / is unspecified). (b) Independently, option sets that agree on all options the input exercises (an over-approximated relation) are grouped and must give identical results.",
          "trusted: the classifier's reading of the documentation (Unspecified where silent); the exercise relation is an over-approximation on this corpus", "4/C08"),
